@@ -192,7 +192,14 @@ def int_cmp(op, a, b, w, signed):
             if op == '<' and ra[0] >= rb[1] or op == '<=' and ra[0] > rb[1] or op == '>' and ra[1] <= rb[0] or op == '>=' and ra[1] < rb[0] \
                     or op == '==' and (ra[1] < rb[0] or ra[0] > rb[1]):
                 return False
-    r = _int_cmp(op, a, b, w, signed)
+    r = None
+    if w == 64 and signed:
+        if isinstance(a, z3.ExprRef) and isinstance(b, int) and not isinstance(b, bool):
+            r = _cmp_dist(op, a, b, 8)
+        elif isinstance(b, z3.ExprRef) and isinstance(a, int) and not isinstance(a, bool):
+            r = _cmp_dist({'<': '>', '<=': '>=', '>': '<', '>=': '<=', '==': '==', '!=': '!='}[op], b, a, 8)
+    if r is None:
+        r = _int_cmp(op, a, b, w, signed)
     if isinstance(r, z3.ExprRef) and w == 64 and signed:
         if isinstance(b, int):
             _cmp_info[r.get_id()] = (op, a, b)
@@ -201,6 +208,66 @@ def int_cmp(op, a, b, w, signed):
             _cmp_info[r.get_id()] = ({'<': '>', '<=': '>=', '>': '<', '>=': '<=', '==': '==', '!=': '!='}[op], b, a)
             _keep.append(r)
     return r
+
+
+_PY_CMP = {'==': lambda x, y: x == y, '!=': lambda x, y: x != y, '<': lambda x, y: x < y, '<=': lambda x, y: x <= y,
+           '>': lambda x, y: x > y, '>=': lambda x, y: x >= y}
+
+
+def _decide_rng(op, r, c):
+    lo, hi = r
+    if op == '==':
+        return False if (c < lo or c > hi) else (True if lo == hi == c else None)
+    if op == '!=':
+        return True if (c < lo or c > hi) else (False if lo == hi == c else None)
+    if op == '<':
+        return True if hi < c else (False if lo >= c else None)
+    if op == '<=':
+        return True if hi <= c else (False if lo > c else None)
+    if op == '>':
+        return True if lo > c else (False if hi <= c else None)
+    if op == '>=':
+        return True if lo >= c else (False if hi < c else None)
+    return None
+
+
+def _cmp_dist(op, t, c, depth):
+    """signed comparison of the 64-bit term t with the constant c, pushed through ite and through + constant (only where the
+    known value range excludes wrap-around). Returns bool | z3 Bool, or None when nothing is gained. A run-length counter
+    `cnt = same ? cnt+1 : 1` compared with L thereby becomes a formula over the last L guards instead of the whole prefix."""
+    if z3.is_bv_value(t):
+        return _PY_CMP[op](t.as_signed_long(), c)
+    r = _bv_range.get(t.get_id())
+    if r is not None:
+        d = _decide_rng(op, r, c)
+        if d is not None:
+            return d
+    if depth <= 0:
+        return None
+    if z3.is_app_of(t, z3.Z3_OP_ITE):
+        g, A, B = t.arg(0), t.arg(1), t.arg(2)
+        ra = _cmp_dist(op, A, c, depth - 1)
+        rb = _cmp_dist(op, B, c, depth - 1)
+        if ra is None and rb is None:
+            return None
+        cv = z3.BitVecVal(c, 64)
+        plain = {'==': lambda x: x == cv, '!=': lambda x: x != cv, '<': lambda x: x < cv, '<=': lambda x: x <= cv,
+                 '>': lambda x: x > cv, '>=': lambda x: x >= cv}[op]
+        if ra is None:
+            ra = plain(A)
+        if rb is None:
+            rb = plain(B)
+        return b_ite(g, ra, rb)
+    if z3.is_app_of(t, z3.Z3_OP_BADD) and t.num_args() == 2:
+        x, k = t.arg(0), t.arg(1)
+        if z3.is_bv_value(x):
+            x, k = k, x
+        if z3.is_bv_value(k):
+            rx = _bv_range.get(x.get_id())
+            kk = k.as_signed_long()
+            if rx is not None and -LIM < rx[0] + kk and rx[1] + kk < LIM and -LIM < c - kk < LIM:
+                return _cmp_dist(op, x, c - kk, depth - 1)
+    return None
 
 
 def _int_cmp(op, a, b, w, signed):
